@@ -2,7 +2,8 @@
    Only statements closed by `exact`, with their assumptions printed. *)
 From Coq Require Import List NArith Bool.
 From SV Require Import Reconciler.Retries Reconciler.Model Reconciler.RetriesProofs Reconciler.CommitProofs
-  Reconciler.RoundProofs Reconciler.CoverProofs Reconciler.StepProofs Reconciler.Refuted.
+  Reconciler.RoundProofs Reconciler.CoverProofs Reconciler.StepProofs Reconciler.Refuted
+  Reconciler.TableWf Reconciler.StreamProofs Reconciler.PhaseProofs Reconciler.RoundInv Reconciler.Runs.
 Import ListNotations.
 Open Scope N_scope.
 
@@ -107,6 +108,46 @@ Print Assumptions C14_foreign_status_write_refuted.
 Theorem C14_foreign_status_write_converges : run_stuck true = ([(1, 1, kind_code Done)], [(1, 1)], 0, 3).
 Proof. exact converges_after_foreign_status_write_fixed. Qed.
 Print Assumptions C14_foreign_status_write_converges.
+
+(* ------------------------------------------------------------------ whole rounds and runs (single mode) *)
+(* round_inv e s (RoundInv.v): the table is well-formed (unique keys, positive distinct revisions bounded
+   by the table revision), the retry queue has one item per key with revisions from the past, the cursor
+   is not beyond the table revision, and EVERY key is covered w.r.t. Dlog e (successful Deletes in the
+   call log). One whole round of a single-mode reconciler — change stream over the snapshot with any round
+   size, any outcome of every operation (fault oracle), any user writes performed from inside any
+   operation (hooks: between snapshot and commit), both status commits, the retry phase on update AND
+   delete items, prune — preserves it. *)
+Theorem C14_round_keeps_cover : forall cf e s e' s', cf_batch cf = false ->
+  round_inv e s -> round cf e s = (e', s') -> round_inv e' s' /\ k_cursor s <= k_cursor s'.
+Proof. exact round_keeps_inv. Qed.
+Print Assumptions C14_round_keeps_cover.
+
+(* nothing_forgotten, lifted to runs: every state reachable from the initial state by rounds, user writes
+   of every kind, fault/hook registrations, time steps, prune requests and initializer completion satisfies
+   the invariant (full_inv = round_inv + progress revision <= cursor + every queued delete retry was called) *)
+Theorem C14_nothing_forgotten : forall cf st, cf_batch cf = false -> reach cf st -> full_inv (fst st) (snd st).
+Proof. exact nothing_forgotten. Qed.
+Print Assumptions C14_nothing_forgotten.
+
+(* convergence, partial: a quiescent reconciler (empty retry queue, empty change stream) has reconciled
+   everything: every live object is Done and every deletion was Delete()d successfully ... *)
+Theorem C14_quiescent_is_reconciled : forall e s, full_inv e s -> quiescent e s -> reconciled e.
+Proof. exact quiescent_is_reconciled. Qed.
+Print Assumptions C14_quiescent_is_reconciled.
+
+(* ... in every reachable state, whatever history of writes, faults and timings led there.
+   MISSING for the full bounded-convergence statement (`converges`): (1) the progress argument — once the
+   oracle only answers ok and no write occurs, each round executed past the largest retryAt decreases
+   (#pending or deleted changes ahead of the cursor) + (#retry items) by min(roundSize, that number), and
+   one more round skips the Done objects the commits wrote, so quiescence is reached after
+   ceil(pending / roundSize) + |items| + 2 rounds; (2) target = table (the last successful operation per
+   key), which needs a ghost linking Done statuses to e_target; (3) batch mode (cf_batch = true): the
+   phase lemma is proved for incremental.go `single` only. All three are covered on every check by the
+   exact correspondence of the `final` line (P:C14) and the !BAD:C14 oracles. *)
+Theorem C14_converges_partial : forall cf st, cf_batch cf = false -> reach cf st ->
+  quiescent (fst st) (snd st) -> reconciled (fst st).
+Proof. exact converges_partial. Qed.
+Print Assumptions C14_converges_partial.
 
 Example C14_nonvacuous :
   forall pk, covered (fun _ _ => False) (t_insert (t_empty false) (mkObj 1 1 Pending 1)) 0 [] (r_new 10 40) pk.
